@@ -94,6 +94,60 @@ theorem encoder_hidden_setter_calls_exact :
       [("wbxml_encoder_encode_tree_to_wbxml", "wbxml_encoder_set_output_type"),
        ("wbxml_encoder_encode_tree_to_xml", "wbxml_encoder_set_output_type")] := by decide +kernel
 
+
+/-! ## Encoder run kinds: what each public entry point may leave changed
+
+  A run is what happens between two resets.  Besides `set_tree` + `encode_tree_to_wbxml/_to_xml`
+  (`encTreeRunW/X`) the public API offers flow-style runs (`wbxml_encoder_encode_tree(encoder, tree)`
+  then `wbxml_encoder_get_output`: `encFlowRun`) and node-wise runs (`encode_node`,
+  `encode_node_with_elt_end`, `encode_raw_elt_start/_end`, `delete_last_node`, `delete_output_bytes`,
+  `get_output`: `encNodeRun`).  The facts below are about EVERY path through these functions — a run
+  that fails in the middle of a tree included. -/
+
+/-- `wbxml_encoder_encode_tree` installs the tree's language for the duration of the call and puts the
+    saved entry value of `lang` back on EVERY path (also when the root node could not be encoded). -/
+theorem encoder_encode_tree_restores_lang :
+    ownWrites encoder "wbxml_encoder_encode_tree" "lang" = true ∧
+    restoresSaved encoder "wbxml_encoder_encode_tree" "lang" = true := by decide +kernel
+
+/-- A flow-style run — successful or not — leaves every setting and each of `lang`, `use_strtbl`,
+    `output_charset` as it found it. -/
+theorem encoder_flow_run_keeps_user_fields :
+    ∀ f ∈ settings encoder ++ stickyList encoder, keepsNet encoder encFlowRun f = true := by
+  rw [← keepsAll_iff, encoder_settings_exact, encoder_sticky_exact]
+  decide +kernel
+
+/-- So does a node-wise run, whatever mixture of the flow API it is made of. -/
+theorem encoder_node_run_keeps_user_fields :
+    ∀ f ∈ settings encoder ++ stickyList encoder, keepsNet encoder encNodeRun f = true := by
+  rw [← keepsAll_iff, encoder_settings_exact, encoder_sticky_exact]
+  decide +kernel
+
+/-- What a tree run (`set_tree` + `encode_tree_to_wbxml/_to_xml`) may leave changed among the user's
+    fields: exactly the three sticky fields and, of the settings, only the output type named in the
+    entry point. -/
+theorem encoder_tree_run_writes_exact :
+    (settings encoder ++ stickyList encoder).filter (fun f => !keepsNet encoder encTreeRunW f)
+      = ["output_type", "lang", "use_strtbl", "output_charset"] ∧
+    (settings encoder ++ stickyList encoder).filter (fun f => !keepsNet encoder encTreeRunX f)
+      = ["output_type", "lang", "use_strtbl", "output_charset"] := by
+  rw [encoder_settings_exact, encoder_sticky_exact]
+  decide +kernel
+
+/-- The known finding, localised: the ONLY run kind after which the user has to call the setters of
+    `lang`, `use_strtbl`, `output_charset` again is `set_tree` + `encode_tree_to_wbxml/_to_xml`
+    (through `encoder_encode_tree`). -/
+theorem encoder_reapply_exact :
+    reapplyAfter encoder encFlowRun = false ∧ reapplyAfter encoder encNodeRun = false ∧
+    reapplyAfter encoder encTreeRunW = true ∧ reapplyAfter encoder encTreeRunX = true := by
+  simp only [reapplyAfter_eq, encoder_sticky_exact]
+  decide +kernel
+
+/-- `wbxml_encoder_reset` does not store to `lang`, `use_strtbl`, `output_charset` at all. -/
+theorem encoder_reset_leaves_sticky : reinitLeavesSticky encoder = true := by
+  simp only [reinitLeavesSticky, encoder_sticky_exact]
+  decide +kernel
+
 /-! ## Converter objects -/
 
 /-- No converter field has a writer other than create and setters: converters hold options only. -/
@@ -207,6 +261,47 @@ theorem encoder_history_free_partial (body : (String → String) → D → (Stri
       = (machineOf encoder body).efresh s ops :=
   (machineOf encoder body).eexec_history_free (encoder_machine_sound body) ops s
 
+/-! ### Histories that mix run kinds, failed runs included -/
+
+theorem encoder_machineK_sound (body : List String → (String → String) → D → (String → String) × R) :
+    (machineOfK encoder body).Sound := machineOf_sound encoder _ encoder_reset_keeps_settings
+
+/-- **Encode after reset, all run kinds.**  For every body (a function of the run kind, the whole
+    store and the document: it may fail at any point and leave anything in the per-run fields), every
+    history of setter calls and runs of ANY kind — tree runs, flow-style runs, node-wise runs, in any
+    order, each followed by `wbxml_encoder_reset` — in which the user calls the setters of `lang`,
+    `use_strtbl`, `output_charset` again only after the runs that `reapplyAfter` names (by
+    `encoder_reapply_exact`: after tree runs, never after flow-style or node-wise runs): every run
+    gives exactly the result it gives on a newly created encoder with the same settings.
+    (A tree run is preceded by `.set "output_type" …`: the entry point's name is the user's choice,
+    `encoder_hidden_setter_calls_exact`.) -/
+theorem encoder_history_free_mixed (body : List String → (String → String) → D → (String → String) × R)
+    (ops : List (Machine.KOp String String D (List String))) (s : String → String) :
+    ((machineOfK encoder body).kexec (keepsNet encoder) (reapplyAfter encoder)
+        ((machineOfK encoder body).created s) s ops).2
+      = (machineOfK encoder body).kfresh (keepsNet encoder) s ops :=
+  (machineOfK encoder body).kexec_history_free (keepsNet encoder) (reapplyAfter encoder)
+    (encoder_machineK_sound body)
+    (fun f hf => reinitAssign_none_of_leaves encoder encoder_reset_leaves_sticky f hf)
+    (fun k f hf hr => keepsNet_of_not_reapply encoder k f hf hr) ops s
+
+/-- **Full strength for the flow API**: a history made of setter calls and flow-style / node-wise
+    runs only (failed ones included), reset after every run and NOTHING re-applied: every run gives
+    the result of a newly created encoder with the same settings. -/
+theorem encoder_flow_histories_free (body : List String → (String → String) → D → (String → String) × R)
+    (ops : List (Machine.KOp String String D (List String))) (s : String → String)
+    (h : ∀ k ∈ Machine.kindsOf ops, k = encFlowRun ∨ k = encNodeRun) :
+    ((machineOfK encoder body).kexecPlain (keepsNet encoder) ((machineOfK encoder body).created s) ops).2
+      = (machineOfK encoder body).kfresh (keepsNet encoder) s ops := by
+  refine (machineOfK encoder body).kexecPlain_history_free (keepsNet encoder) (encoder_machineK_sound body)
+    (fun f hf => reinitAssign_none_of_leaves encoder encoder_reset_leaves_sticky f hf) ops s ?_
+  intro k hk f hf
+  have hr : reapplyAfter encoder k = false := by
+    rcases h k hk with rfl | rfl
+    · exact encoder_reapply_exact.1
+    · exact encoder_reapply_exact.2.1
+  exact keepsNet_of_not_reapply encoder k f hf hr
+
 end
 
 /-- A per-tree function that does what `encoder_encode_tree` does with `lang`: keep the user's
@@ -223,6 +318,27 @@ theorem encoder_plain_history_not_free :
     ((machineOf encoder langBody).eexecPlain ((machineOf encoder langBody).created (initOf encoder))
         [.enc "WV", .enc "SI"]).2 = ["WV", "WV"] ∧
     (machineOf encoder langBody).efresh (initOf encoder) [.enc "WV", .enc "SI"] = ["WV", "SI"] := by
+  decide +kernel
+
+/-- A per-run function that does with `lang` what the entry points do — a flow-style run installs the
+    tree's language and fails half-way, leaving `indent` and `in_content` behind; a tree run keeps the
+    language it derived (`encoder_encode_tree`) — and reports the language and indentation it started with. -/
+def kindBody (_k : List String) (m : String → String) (treeLang : String) : (String → String) × (String × String) :=
+  (upd (upd (upd m "lang" treeLang) "indent" "7") "in_content" "1", (m "lang", m "indent"))
+
+/-- Non-vacuity of `encoder_flow_histories_free`, and **the known finding through the new run kinds**
+    (why `encoder_history_free_mixed` re-applies after tree runs), in one history on ONE encoder whose
+    language the user never set, reset after every run, nothing re-applied: a FAILED flow-style SI run
+    leaves nothing (the WV tree run starts without language, as on a new encoder); the WV tree run
+    leaves its language, so the node-wise run after it starts with the WV language where a new encoder
+    has none (`wbxml_encoder_encode_node` answers Bad Parameter there). -/
+theorem encoder_mixed_plain_not_free :
+    ((machineOfK encoder kindBody).kexecPlain (keepsNet encoder) ((machineOfK encoder kindBody).created (initOf encoder))
+        [.run encFlowRun "SI", .run encTreeRunW "WV", .run encNodeRun "SI"]).2
+      = [("NULL", "0"), ("NULL", "0"), ("WV", "0")] ∧
+    (machineOfK encoder kindBody).kfresh (keepsNet encoder) (initOf encoder)
+        [.run encFlowRun "SI", .run encTreeRunW "WV", .run encNodeRun "SI"]
+      = [("NULL", "0"), ("NULL", "0"), ("NULL", "0")] := by
   decide +kernel
 
 end Wbxml.Props.C15
